@@ -78,6 +78,18 @@ theorem C17_renko_rising (s : Renko) (c : Candle ℚ) (h : Renko.Inv s) (hv : s.
       c.source s.src < (s.next c).2.next_block_upper ∧
       o.totalVolume = s.volume + c.volume := Renko.next_up s c h hv
 
+theorem C17_renko_falling (s : Renko) (c : Candle ℚ) (h : Renko.Inv s) (hnu : ¬ s.next_block_upper ≤ c.source s.src)
+    (hv : c.source s.src ≤ s.next_block_lower) (hpos : 0 < c.source s.src) :
+    ∃ o, (s.next c).1 = some o ∧
+      1 ≤ Renko.truncNat ((s.last_block_lower - c.source s.src) / s.last_block_lower / s.brick_size) ∧
+      o.len = Renko.truncNat ((s.last_block_lower - c.source s.src) / s.last_block_lower / s.brick_size) ∧
+      o.base_line = s.last_block_lower ∧ o.brick_size = -s.brick_size ∧
+      (s.next c).2.last_block_upper = s.last_block_lower * (1 - s.brick_size * ((o.len - 1 : ℕ) : ℚ)) ∧
+      (s.next c).2.last_block_lower = s.last_block_lower * (1 - s.brick_size * (o.len : ℚ)) ∧
+      c.source s.src ≤ (s.next c).2.last_block_lower ∧
+      Renko.Inv (s.next c).2 ∧ (s.next c).2.volume = 0 ∧
+      o.totalVolume = s.volume + c.volume := Renko.next_down s c h hnu hv hpos
+
 theorem C17_renko_blocks (o : RenkoOut) (hlen : 1 ≤ o.len) :
     o.blocks.length = o.len ∧
     (∀ j, j + 1 < o.len → (o.block j).close = (o.block (j + 1)).open_) ∧
@@ -103,3 +115,4 @@ end Yata.C17
 #print axioms Yata.C17.C17_heikin_ashi_init
 #print axioms Yata.C17.C17_renko_rising
 #print axioms Yata.C17.C17_renko_blocks
+#print axioms Yata.C17.C17_renko_falling
